@@ -4,6 +4,7 @@ CONSTANTS
   Outsider = {"x1"}
   T = 3
   VerifyAttached = TRUE
+  VerifyEarly = TRUE
   MaxMsgs = 3
   Rep = {1, 3}
   MaxSet = 3
